@@ -66,6 +66,12 @@ def _functions(path):
         for c in code.co_consts:
             if not hasattr(c, 'co_code'):
                 continue
+            if '__qualname__' in c.co_names and '__module__' in c.co_names:
+                # a class body (runs at import time, before the measurement starts): only its methods count
+                for m in c.co_consts:
+                    if hasattr(m, 'co_code'):
+                        walk(m, (qual + '.' if qual != '<module>' else '') + c.co_name + '.' + m.co_name)
+                continue
             if c.co_name.startswith('<') and c.co_name != '<lambda>':
                 walk(c, qual)
             else:
@@ -130,6 +136,7 @@ def report(repo, verif, prop_id):
     anchors = anchored_names(verif, prop_id)
     files = {}
     anchored = {}
+    missed = {}
     for f in sorted(set(hit_by_file) | set(anchors)):
         path = os.path.join(base, f)
         if not os.path.exists(path):
@@ -150,6 +157,8 @@ def report(repo, verif, prop_id):
             ls = fns[q][1]
             if ls:
                 anchored['%s:%s' % (f, q)] = [len(ls & hits), len(ls)]
+                if ls - hits and ls & hits:
+                    missed['%s:%s' % (f, q)] = sorted(ls - hits)
     tot_hit = sum(v[0] for v in anchored.values())
     tot = sum(v[1] for v in anchored.values())
     return {'measured': True, 'what': 'lines of /repo/AdvancedHTMLParser executed in this process by the correspondence and oracle runs '
@@ -157,4 +166,5 @@ def report(repo, verif, prop_id):
             'files': files,
             'anchored_functions': anchored,
             'anchored_lines_hit': tot_hit, 'anchored_lines_executable': tot,
-            'anchored_functions_never_entered': sorted(k for k, v in anchored.items() if v[0] == 0)}
+            'anchored_functions_never_entered': sorted(k for k, v in anchored.items() if v[0] == 0),
+            'anchored_lines_not_executed': missed}
